@@ -196,6 +196,17 @@ def r9_str_contains(text, log, file, base_line):
         text = text[:m.start()] + f'vx_str_contains({m.group(1)}.as_str(), {arg})' + text[close + 1:]
 
 
+def r10_hash_call(text, log, file, base_line):
+    """`X.hash(&mut H);` -> `vx_hash(&X, &mut H);`: trusted wrapper performing exactly that call
+    (`Hash::hash` is generic over the hasher; the wrapper fixes it to DefaultHasher and gives it the
+    contract "appends enc(X) to the hasher's input")."""
+    rx = re.compile(r'(?<![A-Za-z0-9_\.])([a-z_][a-z0-9_]*)\.hash\(&mut ([a-z_][a-z0-9_]*)\);')
+    for m in list(rx.finditer(text))[::-1]:
+        log.append(('R10', file, base_line + text.count('\n', 0, m.start()), m.group(0)))
+        text = text[:m.start()] + f'vx_hash(&{m.group(1)}, &mut {m.group(2)});' + text[m.end():]
+    return text
+
+
 def r8_ref_pattern(text, log, file, base_line):
     """`if let P(&x) = e {` -> `if let P(vx_r_x) = e { let x = *vx_r_x;` (Verus has no ref patterns).
 
@@ -408,6 +419,7 @@ class Weaver:
         text = r6_drain_prefix(text, u.rewrites, file, base_line)
         text = r8_ref_pattern(text, u.rewrites, file, base_line)
         text = r9_str_contains(text, u.rewrites, file, base_line)
+        text = r10_hash_call(text, u.rewrites, file, base_line)
         text = r5_self_path(text, u.rewrites, file, base_line, strip_modules)
         return text
 
